@@ -44,10 +44,22 @@ class Collector:
         self.name, self.domain, self.sset, self.line = name, domain, sset, line
 
 
+def _domain_aliases(fn: ast.FunctionDef) -> dict:
+    """name -> domain it is equal to up to None entries:  ups = [u for u in D if u is not None]"""
+    al = {}
+    for n in ast.walk(fn):
+        if isinstance(n, ast.Assign) and len(n.targets) == 1 and isinstance(n.targets[0], ast.Name) and isinstance(n.value, ast.ListComp) and len(n.value.generators) == 1:
+            g = n.value.generators[0]
+            if isinstance(g.target, ast.Name) and norm(n.value.elt) == g.target.id and all(norm(c) == f"{g.target.id} is not None" for c in g.ifs):
+                al[n.targets[0].id] = norm(g.iter)
+    return al
+
+
 def collectors(fn: ast.FunctionDef, T) -> dict:
     """list name -> Collector, from `for u in DOMAIN: ... if P(u.status): L.append(u.id)` loops"""
     out: dict = {}
     ALL = frozenset(T.members)
+    aliases = _domain_aliases(fn)
 
     def walk(stmts, var, domain, cur: frozenset):
         prior = frozenset()       # union of the tests of earlier branches of an if/elif chain at this level
@@ -72,11 +84,31 @@ def collectors(fn: ast.FunctionDef, T) -> dict:
                     domain_ = "?"
                 else:
                     domain_ = domain
-                out[name] = Collector(name, domain_, sset, s.lineno)
+                out[name] = Collector(name, aliases.get(domain_, domain_), sset, s.lineno)
 
     for n in ast.walk(fn):
         if isinstance(n, ast.For) and isinstance(n.target, ast.Name):
             walk(n.body, n.target.id, norm(n.iter), ALL)
+        # the same collector written as a comprehension: L = [u.id for u in DOMAIN if P(u.status)]
+        if isinstance(n, (ast.Assign, ast.AnnAssign)) and isinstance(n.value, ast.ListComp) and len(n.value.generators) == 1:
+            tgt = n.targets[0] if isinstance(n, ast.Assign) else n.target
+            g = n.value.generators[0]
+            if isinstance(tgt, ast.Name) and isinstance(g.target, ast.Name):
+                var = g.target.id
+                cur = ALL
+                okc = True
+                for c in g.ifs:
+                    for leaf in (c.values if isinstance(c, ast.BoolOp) and isinstance(c.op, ast.And) else [c]):
+                        if norm(leaf) == f"{var} is not None":
+                            continue
+                        ss = status_set(leaf, f"{var}.status", T)
+                        if ss is None:
+                            if f"{var}.status" in norm(leaf):
+                                okc = False       # a status test this reader cannot evaluate: no collector
+                            continue
+                        cur = cur & ss
+                if okc and tgt.id not in out:
+                    out[tgt.id] = Collector(tgt.id, aliases.get(norm(g.iter), norm(g.iter)), cur, n.lineno)
     return out
 
 
